@@ -492,6 +492,11 @@ def f10_f11_imports(prog, ctx):
                                what="splitting of the option lists")
     _common.import_obligations(ctx, prog, [_C03.run], "F11", "folding the history leaves its members intact: ", keep=lambda ob: ob.rule == "M1",
                                what="effects of the merge on its inputs")
+    # F6 (continued): which history members the merged read leaves out is decided by EQUAL file names (a later member of the same
+    # name) - the rule a caller folding the history can follow (= C01.L10)
+    from rules import C01 as _C01
+    _common.import_obligations(ctx, prog, [_C01.l10_l11], "F6", "the merged read masks by equal names: ", keep=lambda ob: ob.rule == "L10" and not str(ob.key).startswith("seed-of-merge"),
+                               what="masking of same-named files")
 
 
 def run(prog, ctx):
